@@ -82,6 +82,40 @@ theorem fact_ambassador_controller_resolution :
 /-- the key resolver moves to the next previous transaction on `ErrNotFound` only -/
 theorem fact_key_resolver : Facts.C09.keyResolverAbortCondition = "err != resolver.ErrNotFound" := by decide
 
+/-- **Wiring.** The DAG signature verifier's key resolver reads the DID store itself (model: `resolvePublicKeyStore`);
+    the ambassador's key resolver and DID resolver go through `didnuts.Resolver` over the same store (model:
+    `resolvePublicKey`, `resolveControllersTop`) -/
+theorem fact_wiring :
+    Facts.C09.verifierWiring =
+      "nutsKeyResolver := dag.SourceTXKeyResolver{Resolver: n.didStore} ; NewTransactionSignatureVerifier(nutsKeyResolver)" ∧
+    Facts.C09.ambassadorWiring = ["resolver := Resolver{Store: didStore}", "didStore: didStore",
+      "keyResolver: dag.SourceTXKeyResolver{Resolver: resolver}", "didResolver: &Resolver{Store: didStore}"] := by decide
+
+/-- **Call sites.** `callback` is entered from the two subscriber functions only and is the only caller of the two
+    handlers; the only other `Add` on the DID store in the package is the node's own publishing path
+    (`Manager.Update`, which validates with `ManagedDocumentValidator` = network validator + service checks first);
+    the subscription delivers payload events of type did+json -/
+theorem fact_call_sites :
+    Facts.C09.handlerCallers = ["handleReprocessEvent->callback", "handleNetworkEvent->callback",
+      "callback->handleUpdateDIDDocument", "callback->handleCreateDIDDocument"] ∧
+    Facts.C09.didStoreAddSites = ["ambassador.go:handleCreateDIDDocument:n.didStore.Add",
+      "ambassador.go:handleUpdateDIDDocument:n.didStore.Add", "manager.go:Update:m.store.Add"] ∧
+    Facts.C09.managedValidators = ["NetworkDocumentValidator()", "managedServiceValidator{serviceResolver}"] ∧
+    Facts.C09.subscriptionFilter =
+      "event.Type == dag.PayloadEventType && event.Transaction.PayloadType() == DIDDocumentType" := by decide
+
+/-- **Comparisons and helpers** are exact: whole-thumbprint equality (then `break`), whole-string prefix equality,
+    SHA-256 thumbprints rendered in base58 for DIDs, keys looked up among `VerificationMethod` only, and
+    `IsDeactivated` = no controller and no capabilityInvocation (model: `findKey`, `entryIdErr`, `didThumb`,
+    `resolvePublicKey1`, `C10.isDeactivated`) -/
+theorem fact_comparisons :
+    Facts.C09.findKeyComparison = "bytes.Equal(thumbPrint, documentThumbprint) => break" ∧
+    Facts.C09.entryIdPrefixComparison = "owner.String() != entryID.String()" ∧
+    Facts.C09.thumbprintAlg = "crypto.SHA256" ∧
+    Facts.C09.nutsThumbprintSteps = ["key.Thumbprint(crypto.SHA256)", "base58.EncodeAlphabet(pkHash[:], base58.BTCAlphabet)"] ∧
+    Facts.C09.keyLookup = "doc.VerificationMethod.FindByID(*id)" ∧
+    Facts.C09.isDeactivatedBody = "len(document.Controller) == 0 && len(document.CapabilityInvocation) == 0" := by decide
+
 /-! ### accepted documents are authorised and well-formed -/
 
 /-- **Creation.** If the callback accepts a transaction that carries an embedded key, then the document parsed, passed
